@@ -9,6 +9,7 @@ import (
 	"fmt"
 	"math/rand"
 	"os"
+	"sort"
 	"strconv"
 
 	"github.com/urfave/cli/v2"
@@ -71,6 +72,30 @@ func (e *env) emit(v interface{}) {
 	}
 	e.out.Write(b)
 	e.out.WriteByte('\n')
+}
+
+// emitEv writes one trace event with the "ev" key first (the orchestration recognises trace
+// boundaries by the prefix {"ev":"Init")
+func (e *env) emitEv(ev string, fields map[string]interface{}) {
+	e.out.WriteString(`{"ev":"` + ev + `"`)
+	keys := make([]string, 0, len(fields))
+	for k := range fields {
+		keys = append(keys, k)
+	}
+	sort.Strings(keys)
+	for _, k := range keys {
+		b, err := json.Marshal(fields[k])
+		if err != nil {
+			panic(err)
+		}
+		kb, _ := json.Marshal(k)
+		e.out.WriteByte(',')
+		e.out.Write(kb)
+		e.out.WriteByte(':')
+		e.out.Write(b)
+	}
+	e.out.WriteString("}\n")
+	e.sum.Events++
 }
 
 func (e *env) sample(v interface{}) {
